@@ -23,7 +23,7 @@ HeaderCalls ==
   {[ev |-> "call", m |-> "key_id", bytes |-> b] : b \in {<<>>, <<1>>}}
   \cup {[ev |-> "call", m |-> "algorithm", nm |-> n] : n \in {"ES256", "A128GCM"}}
   \cup {[ev |-> "call", m |-> "add_critical", nm |-> "Alg"], [ev |-> "call", m |-> "add_critical_label", lbl |-> TextL(<<97>>)],
-        [ev |-> "call", m |-> "content_format", nm |-> "Cbor"], [ev |-> "call", m |-> "content_type", txt |-> <<97,47,98>>]}
+        [ev |-> "call", m |-> "content_format", nm |-> "Cbor"], [ev |-> "call", m |-> "content_type", txt |-> <<65, 47, 98, 59, 32, 81, 61, 90>>]}     \* "A/b; Q=Z"
   \cup {[ev |-> "call", m |-> mm, bytes |-> b] : mm \in {"iv", "partial_iv"}, b \in {<<>>, <<1>>, <<2>>}}
   \cup {[ev |-> "call", m |-> "add_counter_signature", sigv |-> SigV]}
   \cup {[ev |-> "call", m |-> "value", z |-> z, val |-> V1] : z \in {Nat2I(0), Nat2I(1), Nat2I(7), Nat2I(8), Neg2I(1), I63max}}
